@@ -118,7 +118,7 @@ def run(ctx):
         src = util.loop_source(row) if row is not None else None
         r = util.range_of(src) if src is not None else None
         ok = r is not None and util.const_val(r[0]) == 0
-    if not ok and by_tail is None:
+    if not ok and by_tail is None and not slot5 and all(r is not None and r[1] is not None and r[1] <= 5 for r in other_ranges):
         # no `sols[si][5] = j6` statement of its own (the rows are built whole, `theta.map(|t| [.., j6])`): by the symbolic run
         by_tail = opw.tail_verdict(ctx, five, True, ('slot5',))
     if by_tail is not None:
